@@ -226,16 +226,15 @@ def colIdOf (a : String) : Option Nat :=
 
 def column (rows : List Row) (i : Nat) : List Val := rows.map (fun r => r.getD i .null)
 
-/-- reason tags for an equi-join whose L2 result differs from the spec. -/
+/-- reason tags for an equi-join whose L2 result differs from the spec.  (NULL keys no longer are a
+mechanism: since the `fix:` commit the executors never match them, like the spec.) -/
 def joinTags (name : String) (lk rk : List (Row → Val)) (L R : List Row) (sorted : Bool) : List String :=
-  let lks := L.map (keyOf lk)
-  let rks := R.map (keyOf rk)
-  let hasNull := (lks ++ rks).any (fun k => k.any Val.isNull)
-  let mixed := lks.any (fun a => rks.any (fun b => (a.zip b).any (fun (x, y) => !x.isNull && !y.isNull && x.rank != y.rank)))
-  (if hasNull then [name ++ ":null-key"] else []) ++
+  let lks := (L.map (keyOf lk)).filter (fun k => !hasNullKey k)
+  let rks := (R.map (keyOf rk)).filter (fun k => !hasNullKey k)
+  let mixed := lks.any (fun a => rks.any (fun b => (a.zip b).any (fun (x, y) => x.rank != y.rank)))
   (if mixed then [name ++ ":int32-int64-key"] else []) ++
   (if !sorted then [name ++ ":unsorted-input"] else []) ++
-  (if !hasNull && !mixed && sorted then [name ++ ":other"] else [])
+  (if !mixed && sorted then [name ++ ":other"] else [])
 
 def aggTag (path : String) (k : AggKind) (nonNullSeen rawDiffers : Bool) : String :=
   match k with
